@@ -21,12 +21,12 @@ import (
 )
 
 type Clause struct {
-	Expr ast.Expr
-	Text string
-	Src  string
-	Auto bool
-	Inherited bool // copied from a default contract: not applicable to every signature
-	Tag  string // property group that checks this clause (empty: the structural group)
+	Expr      ast.Expr
+	Text      string
+	Src       string
+	Auto      bool
+	Inherited bool   // copied from a default contract: not applicable to every signature
+	Tag       string // property group that checks this clause (empty: the structural group)
 }
 
 type LoopSpec struct {
@@ -617,15 +617,15 @@ type SV struct {
 
 type SpecEnv struct {
 	peakOverride string
-	fr    *Frame
-	fn    *ssa.Function // function whose package gives the scope
-	names map[string]SV
-	st    *State
-	old   *State
-	pre   *State
-	loop  *loopInfo
-	bound int
-	depth int
+	fr           *Frame
+	fn           *ssa.Function // function whose package gives the scope
+	names        map[string]SV
+	st           *State
+	old          *State
+	pre          *State
+	loop         *loopInfo
+	bound        int
+	depth        int
 }
 
 func newSpecEnv(fr *Frame, fn *ssa.Function) *SpecEnv {
